@@ -799,7 +799,11 @@ func (x *txnCtx) issue(r column.Row, col ColSpec, merge bool, v MVal, via int) {
 		default:
 			val = nums[col.Kind].toAny(v.U)
 		}
-		if err := r.SetMany(map[string]any{n: val}); err != nil {
+		err := r.SetMany(map[string]any{n: val})
+		if x.w == nil {
+			return // race mode: no model, no shared harness state
+		}
+		if err != nil {
 			x.w.fail(violation("setmany-error", "Row.SetMany({%q: ...}) on an existing %s column returned %v", n, col.Kind, err))
 		}
 		x.w.stats.probe("store-through-Row.SetMany")
